@@ -9,6 +9,7 @@ package tool_test
 // had to change or had to stay.
 
 import (
+	"strconv"
 	"syscall"
 	"fmt"
 	"go/token"
@@ -89,7 +90,7 @@ func (c36) NewRun(plan *simrt.Source, job *harn.Job) harn.Run {
 		return irrelevant[plan.Draw(len(irrelevant))]
 	}
 	kinds := []string{"create", "create", "rewrite", "rewrite", "append", "truncate", "touch", "touch", "rename", "delete", "mkdir", "subfile",
-		"chmod", "file-to-dir", "dir-to-file", "huge", "epoch", "far-future", "empty",
+		"chmod", "file-to-dir", "dir-to-file", "huge", "epoch", "far-future", "empty", "field-shift", "field-shift",
 		// another process changes ONE file while the hash is being computed
 		"during:delete", "during:hide", "during:create", "during:touch",
 		// the hash is asked for while the directory cannot be listed (an I/O error,
@@ -499,6 +500,32 @@ func (r *c36run) runSeq(sim *simrt.Sim) {
 			}
 			os.Truncate(p, 0)
 			stamp(p)
+		case "field-shift":
+			// a restored older copy whose size and modification time BOTH differ, chosen so
+			// that the two numbers written one after the other (hex for even sizes of the
+			// step, decimal otherwise) read the same as before: the leading digit of the
+			// time moves to the end of the size. Any encoding that keeps the fields apart
+			// tells the two states apart.
+			fi, err := os.Lstat(p)
+			if err != nil || !fi.Mode().IsRegular() || fi.Size() == 0 || fi.Size() > 1<<40 || fi.ModTime().UnixNano() <= 0 {
+				did = "skip"
+				break
+			}
+			base := 16
+			if st.Size%2 == 1 {
+				base = 10
+			}
+			ms := strconv.FormatInt(fi.ModTime().UnixNano(), base)
+			if len(ms) < 2 || ms[1] == '0' {
+				did = "skip"
+				break
+			}
+			lead, _ := strconv.ParseInt(ms[:1], base, 64)
+			rest, _ := strconv.ParseInt(ms[1:], base, 64)
+			os.Truncate(p, fi.Size()*int64(base)+lead)
+			t := time.Unix(0, rest)
+			os.Chtimes(p, t, t)
+			res.Faults["field-shift"]++
 		case "epoch", "far-future": // extreme modification times (a restored backup, a broken clock)
 			fi, err := os.Lstat(p)
 			if err != nil || !fi.Mode().IsRegular() {
